@@ -172,4 +172,39 @@ def effective (s : Shard) : Op → Bool
   | _ => false
 
 end Shard
+
+/-! ## a node: all shards of one `ReplicatedShardedState`
+
+  Anchors: /repo/src/production/replicated_state.rs — `shards: Vec<ReplicatedShardHandle>`,
+  `apply_recovered_state(checkpoint_state, deltas)`: step 1 sends every checkpoint entry to the
+  shard of its key (`ApplyRecoveredState`, the only place a checkpoint-recovered stamp advances
+  that shard's Lamport clock), in the iteration order of the checkpoint map; step 2 applies every
+  delta through `apply_remote_deltas`.  `hash_key` is the parameter `route`. -/
+
+/-- index = shard id -/
+abbrev ShardedNode := List Shard
+
+namespace ShardedNode
+
+/-- `ReplicatedShardedState::new`: every shard actor is spawned with the node's replica id -/
+def init (rid : Nat) (causal : Bool) (nshards : Nat) : ShardedNode :=
+  List.replicate nshards (Shard.init rid causal)
+
+/-- one message to the shard actor `s` -/
+def onShard (nd : ShardedNode) (s : Nat) (f : Shard → Shard) : ShardedNode :=
+  match nd[s]? with
+  | some sh => nd.set s (f sh)
+  | none => nd
+
+/-- `apply_recovered_state(Some(ckpt), deltas)`.  `skipTombstones = false` is the code that exists;
+    `true` is the variant "deleted keys have nothing to restore" whose counterexample is
+    `C08.node_recovery_skip_tombstones_counterexample`. -/
+def recoverNode (skipTombstones : Bool) (route : Nat → Nat) (nd : ShardedNode)
+    (ckpt deltas : List (Nat × RV)) : ShardedNode :=
+  deltas.foldl (fun nd p => nd.onShard (route p.1) (fun sh => sh.applyRemote p.1 p.2))
+    (ckpt.foldl (fun nd p =>
+      if skipTombstones && p.2.isTombstone then nd
+      else nd.onShard (route p.1) (fun sh => sh.applyRecovered p.1 p.2)) nd)
+
+end ShardedNode
 end RedisVerif
